@@ -502,7 +502,7 @@ theorem MInv.closed (N c0 : Nat) (log0 : List Ev) : Closed MBase (MInv N c0 log0
         exact Nat.le_of_eq (phiA_congr rfl rfl))
   fileStart := fun _ _ _ _ tk _ hb h _ hfn => MInv.ofFileStart tk _ rfl rfl hb h hfn
   pkt := fun _ _ _ _ _ _ _ _ _ hb h _ hf _ _ he => h.ofPkt hb hf he
-  done := fun _ _ _ _ now _ _ hb h _ hf _ _ _ => h.ofDone now hb hf
+  done := fun _ _ _ _ now _ _ hb h _ hf _ => h.ofDone now hb hf
   fdtPkt := fun _ _ c f now idx _ e _ h _ _ _ _ _ => h.event (Ev.fdt now c.key f.fdtId idx) rfl (fun _ => by
     simp only [isObjPk, Bool.false_eq_true, if_false, Nat.add_zero]
     exact Nat.le_of_eq (phiA_congr rfl rfl))
@@ -630,7 +630,7 @@ theorem runFile_ext (N : Nat) : ∀ fuel s prio cur ticks, Ext N s (runFile fuel
   | zero => intro s prio cur ticks; exact Ext.refl N s
   | succ n ih =>
     intro s prio cur ticks
-    have key : ∀ (s1 : State) (cur1 : Option Cur), Ext N s s1 →
+    have key : ∀ (fr : Bool) (s1 : State) (cur1 : Option Cur), Ext N s s1 →
         Ext N s (if !s1.fdtQueue.isEmpty then (s1, cur1, Out.none) else
           match cur1 with
           | none => (s1, none, Out.none)
@@ -640,9 +640,11 @@ theorem runFile_ext (N : Nat) : ∀ fuel s prio cur ticks, Ext N s (runFile fuel
             | some f =>
               if gateBlocked f N then (s1, cur1, Out.none) else
               match encRead f.nSym c.enc (canStop f && !s1.files.contains c.key) with
-              | (none, _) => runFile n (transferDoneFile s1 c.key N) prio none N ticks
+              | (none, _) =>
+                if fr then (transferDoneFile s1 c.key N, none, Out.none)
+                else runFile n (transferDoneFile s1 c.key N) prio none N ticks
               | (some (idx, b), e) => (pktStep s1 prio c.key N idx b, some { c with enc := e }, Out.pkt prio c.key idx b)).1 := by
-      intro s1 cur1 h1
+      intro fr s1 cur1 h1
       split
       · exact h1
       · cases cur1 with
@@ -654,20 +656,33 @@ theorem runFile_ext (N : Nat) : ∀ fuel s prio cur ticks, Ext N s (runFile fuel
           · split
             · exact h1
             · split
-              · exact (h1.trans (Ext.cons (e := Ev.stop N c.key) (by simp [okEv]) (transferDoneFile_log s1 c.key N))).trans
-                  (ih _ prio none ticks)
+              · cases fr with
+                | true =>
+                  simp only [if_true]
+                  exact h1.trans (Ext.cons (e := Ev.stop N c.key) (by simp [okEv]) (transferDoneFile_log s1 c.key N))
+                | false =>
+                  simp only [Bool.false_eq_true, if_false]
+                  exact (h1.trans (Ext.cons (e := Ev.stop N c.key) (by simp [okEv]) (transferDoneFile_log s1 c.key N))).trans
+                    (ih _ prio none ticks)
               · exact h1.trans (Ext.cons (e := Ev.pkt N prio c.key _ _) (by simp [okEv]) rfl)
     unfold runFile
     cases cur with
-    | some c => exact key s (some c) (Ext.refl N s)
+    | some c => exact key false s (some c) (Ext.refl N s)
     | none =>
       simp only []
       cases hg : getNextFile s prio N ticks with
       | mk s' r =>
         have hq := ext_getNextFile hg
         cases r with
-        | none => exact key s' none hq
-        | some t => exact key s' (some (startCur s' t)) hq
+        | none => exact key true s' none hq
+        | some t =>
+          simp only []
+          cases ho : openFailed true s' (some (startCur s' t)) with
+          | none => exact key true s' (some (startCur s' t)) hq
+          | some kf =>
+            obtain ⟨k', f'⟩ := kf
+            simp only []
+            exact hq.trans (Ext.cons (e := Ev.stop N k') (by simp [okEv]) (transferDoneFile_log s' k' N))
 
 theorem readQueue_ext (N : Nat) : ∀ k s q ticks, Ext N s (readQueue k s q N ticks).1 := by
   intro k
